@@ -57,7 +57,16 @@ Section Visit.
   Lemma visit_nokey : V ENoKey = ret tt. Proof. reflexivity. Qed.
   Lemma visit_seq k es p : V (ESeq k es p) = VL es. Proof. eqn. Qed.
   Lemma visit_dict ks vs : V (EDict ks vs) = (VL ks ;;; VL vs). Proof. eqn. Qed.
-  Lemma visit_other k b cs : V (Other k b cs) = VL cs. Proof. eqn. Qed.
+  Lemma visit_other k cs : V (Other k [] cs) = VL cs. Proof. eqn. Qed.
+  Lemma visit_other_gen k bs cs :
+    V (Other k bs cs) =
+    match bs with
+    | [nm] => if String.eqb k "ExceptHandler"
+              then mod_ctx (fun c => ctx_add c (mkSym nm KName) false) ;;; VL cs ;;; mod_ctx (fun c => ctx_remove c nm)
+              else VL cs
+    | _ => VL cs
+    end.
+  Proof. destruct bs as [|nm [|nm2 r]]; [eqn| |eqn]. cbn [visit]. rewrite ?vlist_mapM. destruct (String.eqb k "ExceptHandler"); reflexivity. Qed.
   Lemma visit_withitem c vs : V (EWithItem c vs) = (V c ;;; VL vs). Proof. eqn. Qed.
   Lemma visit_lambda ps d b p :
     V (ELambda ps d b p) = (mod_ctx ctx_push ;;; add_arguments ps ;;; V b ;;; mod_ctx ctx_pop).
@@ -74,7 +83,7 @@ Section Visit.
   Proof. eqn. Qed.
   Lemma visit_gen t it ifs : V (EGen t it ifs) = (add_identifiers t ;;; V t ;;; V it ;;; VL ifs).
   Proof. eqn. Qed.
-  Lemma visit_delete ts p : V (SDelete ts p) = (mapM_ remove_identifiers ts ;;; VL ts).
+  Lemma visit_delete ts p : V (SDelete ts p) = (VL ts ;;; mapM_ remove_identifiers ts).
   Proof. eqn. Qed.
   Lemma visit_for t it b o p :
     V (SFor t it b o p) = (add_identifiers t ;;; V t ;;; V it ;;; VL b ;;; VL o).
@@ -280,8 +289,8 @@ Section Visit.
         apply mono_assign_body; [apply mono_ret| |].
         * destruct val; try apply mono_raise. destruct (call_children _ _ _ _ Hc0). apply class_branch_mono; assumption.
         * apply mono_bind; [apply (all_here _ _ Hc)|intros; apply (all_here _ _ Hc0)].
-      + rewrite visit_delete. apply mono_bind; [apply mono_mapM_; intros; apply mono_remove_identifiers|].
-        intros. apply mono_VL. exact IH.
+      + rewrite visit_delete. apply mono_bind; [apply mono_VL; exact IH|].
+        intros. apply mono_mapM_; intros; apply mono_remove_identifiers.
       + rewrite visit_for. split_children IH.
         apply mono_bind; [apply mono_add_identifiers|]. intros. apply mono_bind; [apply (all_here _ _ Hc)|]. intros.
         apply mono_bind; [apply (all_here _ _ Hc0)|]. intros. apply mono_bind; [apply mono_VL; assumption|]. intros.
@@ -304,7 +313,9 @@ Section Visit.
         apply mono_mod_ctx.
       + rewrite visit_classdef. apply mono_ret.
       + rewrite visit_forbidden. apply mono_fatal.
-      + rewrite visit_other. apply mono_VL. exact IH.
+      + rewrite visit_other_gen. destruct binds as [|nm [|nm2 r]]; try (apply mono_VL; exact IH).
+        destruct (String.eqb kind "ExceptHandler"); [|apply mono_VL; exact IH].
+        apply mono_bind; [apply mono_mod_ctx|]. intros. apply mono_bind; [apply mono_VL; exact IH|]. intros. apply mono_mod_ctx.
     - (* retval *)
       destruct n as [id c p|v a c p|v sl c p|v c p|f args kws p|arg v|sv|k es p|ks vs| |ps dflts body p|tgt val p|k elts gens p|tgt it ifs|tgts val p|tgt ann val p|tgt val p|tgts p|tgt it body orelse p|items body p|ctxe vars|val p|name ps outer body p|name cs p|kind p|kind binds cs]; try (cbn [retval]; apply mono_ret).
       + rewrite retval_call. apply mono_retcall_body. split_children IH.
